@@ -225,14 +225,14 @@ func expectFor(g *model.GenPkg, f *model.Field) (accExpect, error) {
 		W := tq(f.Wrapper)
 		T := f.WrapperField.Type()
 		F := f.GoName
-		e.has = []string{"if (" + O + " == nil) {return false} else if _, %ok := " + O + ".(*" + W + "); %ok {return true} else {return false}",
-			"_, %t1 := " + O + ".(*" + W + "); return %t1"}
+		// a typed-nil wrapper counts as unset (as in protobuf-go's own oneof reflection)
+		e.has = []string{"if (" + O + " == nil) {return false} else if %v, %ok := " + O + ".(*" + W + "); (%ok && (%v != nil)) {return true} else {return false}"}
 		e.clearBug = O + " = nil"
 		e.clear = []string{"if _, %ok := " + O + ".(*" + W + "); %ok {" + O + " = nil}"}
 		if k == protoreflect.MessageKind {
 			MT := tq(T.(*types.Pointer).Elem())
 			z := "protoreflect.ValueOfMessage(*" + MT + "(nil).ProtoReflect())"
-			e.get = []string{"if (" + O + " == nil) {return " + z + "} else if %v, %ok := " + O + ".(*" + W + "); %ok {return protoreflect.ValueOfMessage(%v." + F + ".ProtoReflect())} else {return " + z + "}"}
+			e.get = []string{"if (" + O + " == nil) {return " + z + "} else if %v, %ok := " + O + ".(*" + W + "); (%ok && (%v != nil)) {return protoreflect.ValueOfMessage(%v." + F + ".ProtoReflect())} else {return " + z + "}"}
 			e.set = cross(O+" = &"+W+"{"+F+": ", unwrapV(k, "$2", T), "}")
 			fresh := "%t1 := &" + MT + "{}; " + O + " = &" + W + "{" + F + ": %t1}; return protoreflect.ValueOfMessage(%t1.ProtoReflect())"
 			fresh2 := "%t2 := &" + MT + "{}; " + O + " = &" + W + "{" + F + ": %t2}; return protoreflect.ValueOfMessage(%t2.ProtoReflect())"
@@ -243,13 +243,13 @@ func expectFor(g *model.GenPkg, f *model.Field) (accExpect, error) {
 				zv := wrapV(k, z)
 				if k == protoreflect.EnumKind {
 					zv = "protoreflect.ValueOfEnum(" + z + ")"
-					e.get = append(e.get, "if ("+O+" == nil) {return "+zv+"} else if %v, %ok := "+O+".(*"+W+"); %ok {return "+wrapV(k, "%v."+F)+"} else {return "+zv+"}")
+					e.get = append(e.get, "if ("+O+" == nil) {return "+zv+"} else if %v, %ok := "+O+".(*"+W+"); (%ok && (%v != nil)) {return "+wrapV(k, "%v."+F)+"} else {return "+zv+"}")
 					zv2 := "protoreflect.ValueOfEnum(protoreflect.EnumNumber(" + z + "))"
-					e.get = append(e.get, "if ("+O+" == nil) {return "+zv2+"} else if %v, %ok := "+O+".(*"+W+"); %ok {return "+wrapV(k, "%v."+F)+"} else {return "+zv2+"}")
+					e.get = append(e.get, "if ("+O+" == nil) {return "+zv2+"} else if %v, %ok := "+O+".(*"+W+"); (%ok && (%v != nil)) {return "+wrapV(k, "%v."+F)+"} else {return "+zv2+"}")
 					e.newField = append(e.newField, "return "+zv, "return "+zv2)
 					continue
 				}
-				e.get = append(e.get, "if ("+O+" == nil) {return "+zv+"} else if %v, %ok := "+O+".(*"+W+"); %ok {return "+wrapV(k, "%v."+F)+"} else {return "+zv+"}")
+				e.get = append(e.get, "if ("+O+" == nil) {return "+zv+"} else if %v, %ok := "+O+".(*"+W+"); (%ok && (%v != nil)) {return "+wrapV(k, "%v."+F)+"} else {return "+zv+"}")
 				e.newField = append(e.newField, "return "+zv)
 			}
 			e.set = cross(O+" = &"+W+"{"+F+": ", unwrapV(k, "$2", T), "}")
@@ -342,9 +342,21 @@ func RunAcc(c *core.Ctx) {
 				}
 				sort.Strings(extra)
 				defOK := def != nil && alwaysPanics(&ast.BlockStmt{List: def.Body})
-				c.Check(len(missing) == 0 && len(extra) == 0 && len(dups) == 0 && defOK && len(fd.Body.List) == 1, "ACC.arms", con,
+				// besides the switch only the nil-receiver prologue `if x == nil { x = new(T) }` may appear
+				others := 0
+				for _, st := range fd.Body.List {
+					if st == ast.Stmt(sw) {
+						continue
+					}
+					cn0 := newCanon(g.Info, fd)
+					if cn0.stmts([]ast.Stmt{st}) == "if (x == nil) {x = new("+tq(m.Fast)+")}" {
+						continue
+					}
+					others++
+				}
+				c.Check(len(missing) == 0 && len(extra) == 0 && len(dups) == 0 && defOK && others == 0, "ACC.arms", con,
 					fmt.Sprintf("%d arms = %d schema fields; unknown descriptors panic", len(am), len(m.Fields)),
-					fmt.Sprintf("fields without arm %v; arms for names not in the schema %v; duplicate labels %v; default arm panics on every path: %v; statements besides the switch: %d", missing, extra, dups, defOK, len(fd.Body.List)-1), pos(c, g, fd.Pos()), src)
+					fmt.Sprintf("fields without arm %v; arms for names not in the schema %v; duplicate labels %v; default arm panics on every path: %v; statements besides the switch and the nil-receiver prologue: %d", missing, extra, dups, defOK, others), pos(c, g, fd.Pos()), src)
 				for _, f := range m.Fields {
 					cc := am[string(f.Desc.FullName())]
 					if cc == nil {
@@ -504,6 +516,11 @@ func runRange(c *core.Ctx, g *model.GenPkg, m *model.Msg, fdVars map[types.Objec
 		return names[0]
 	}
 	used := make([]bool, len(blocks))
+	for i, b := range blocks {
+		if b == "if (x == nil) {x = new("+tq(m.Fast)+")}" {
+			used[i] = true // nil-receiver prologue: a nil message ranges like the empty message
+		}
+	}
 	take := func(alts []string) (string, bool) {
 		for i, b := range blocks {
 			if !used[i] && in(b, alts) {
@@ -558,7 +575,7 @@ func runRange(c *core.Ctx, g *model.GenPkg, m *model.Msg, fdVars map[types.Objec
 		O := "x." + o.GoName
 		var armsS []string
 		for _, f := range o.Members {
-			armsS = append(armsS, "case *"+tq(f.Wrapper)+": if !$1("+varFor(f)+", "+wrapV(f.Desc.Kind(), "%w."+f.GoName)+") {return }")
+			armsS = append(armsS, "case *"+tq(f.Wrapper)+": if (%w == nil) {break}; if !$1("+varFor(f)+", "+wrapV(f.Desc.Kind(), "%w."+f.GoName)+") {return }")
 		}
 		want := "if (" + O + " != nil) {typeswitch %w := " + O + ".(type) {" + strings.Join(armsS, " | ") + "}}"
 		if _, ok := take([]string{want}); ok {
@@ -616,9 +633,9 @@ func runWhichOneof(c *core.Ctx, g *model.GenPkg, m *model.Msg) {
 		O := "x." + o.GoName
 		var as []string
 		for _, f := range o.Members {
-			as = append(as, "case *"+tq(f.Wrapper)+": return x.Descriptor().Fields().ByName(\""+string(f.Desc.Name())+"\")")
+			as = append(as, "case *"+tq(f.Wrapper)+": if (%w == nil) {return nil}; return x.Descriptor().Fields().ByName(\""+string(f.Desc.Name())+"\")")
 		}
-		want := "if (" + O + " == nil) {return nil}; typeswitch " + O + ".(type) {" + strings.Join(as, " | ") + "}"
+		want := "if (" + O + " == nil) {return nil}; typeswitch %w := " + O + ".(type) {" + strings.Join(as, " | ") + "}"
 		c.Check(got == want && cn.err == "", "ACC.whichoneof", con, "nil when unset, else the descriptor of the member whose wrapper is held", fmt.Sprintf("arm does: %s ; expected: %s", clip(got, 400), clip(want, 400)), pos(c, g, cc.Pos()), src)
 	}
 }
